@@ -145,24 +145,46 @@ Definition modinfo_deps (W : jworld) (s : spec) : list jdep :=
   | _ => []
   end.
 
-(* edges of the final graph; [relaxed]: an error entry of a package file still counts the dependencies
-   its embedded module info declared (they were followed before its content load failed) *)
-Definition graph_edges (W : jworld) (g : jgraph) (relaxed : bool) (s : spec) : list spec :=
+(* every export target a jsr specifier may have been sent to: the targets of its export in the selected
+   versions of its package that satisfy its requirement *)
+Definition jsr_targets (W : jworld) (g : jgraph) (s : spec) : list spec :=
+  match cls_of W s with
+  | CJsr p r e =>
+      flat_map (fun v =>
+        if N.eqb (fst v) p && matches W r (snd v) then
+          match v_meta (ver_of W v) with
+          | VOk vi => match lookup e (vi_exports vi) with Some t => [t] | None => [] end
+          | _ => []
+          end
+        else []) (pt_pkgs (jg_pkgs g))
+  | _ => []
+  end.
+
+(* edges of the final graph, with two relaxations that name the known ways an entry gets orphaned:
+   [ra]: an error entry of a package file still counts the dependencies its embedded module info
+         declared (they were followed before its content load failed);
+   [rb]: a jsr specifier counts every selected version that satisfies it (its redirect was overwritten
+         when the same specifier, queued twice, was resolved again after a higher version got selected) *)
+Definition graph_edges (W : jworld) (g : jgraph) (ra rb : bool) (s : spec) : list spec :=
   (match lookup s (jg_redirects g) with Some t => [t] | None => [] end) ++
+  (if rb then jsr_targets W g s else []) ++
   match lookup s (jg_slots g) with
   | Some (JsMod _ deps) => map jd_target deps
-  | Some (JsErr _) => if relaxed then map jd_target (modinfo_deps W s) else []
+  | Some (JsErr _) => if ra then map jd_target (modinfo_deps W s) else []
   | _ => []
   end.
 
 Definition reach_fuel (W : jworld) (g : jgraph) (roots : list spec) : nat :=
-  (16 + length roots + 4 * (length (jg_slots g) + length (jg_redirects g)) +
+  (16 + length roots + 4 * (length (jg_slots g) + length (jg_redirects g)) * (1 + length (pt_pkgs (jg_pkgs g))) +
+   length (jw_cls W) * (1 + length (pt_pkgs (jg_pkgs g))) +
    fold_left (fun n p => n + match snd p with JsMod _ deps => length deps | _ => 0 end +
                          length (modinfo_deps W (fst p))) (jg_slots g) 0)%nat.
 
-Definition orphan_free (W : jworld) (g : jgraph) (roots : list spec) (relaxed : bool) : bool :=
-  let r := reach (reach_fuel W g roots) (graph_edges W g relaxed) roots [] in
+Definition orphan_free_gen (W : jworld) (g : jgraph) (roots : list spec) (ra rb : bool) : bool :=
+  let r := reach (reach_fuel W g roots) (graph_edges W g ra rb) roots [] in
   forallb (fun p => mem (fst p) r) (jg_slots g).
+Definition orphan_free (W : jworld) (g : jgraph) (roots : list spec) (relaxed : bool) : bool :=
+  orphan_free_gen W g roots relaxed false.
 
 (* answers report the requested specifier as the final one (no aliases): with aliases an answer can
    replace the entry of another module and with it the only importer of something *)
@@ -173,8 +195,10 @@ Definition noalias_jworld (W : jworld) : bool := forallb noalias_resp (jw_use W)
 Definition CLASSTAG : N := 555555.
 Definition c01_judgement (W : jworld) (g : jgraph) (roots : list spec) : list sexp :=
   if negb (noalias_jworld W) then [judge true]
-  else if orphan_free W g roots false then [judge true]
-  else if orphan_free W g roots true then [judge false; L [A CLASSTAG; A 101]]
+  else if orphan_free_gen W g roots false false then [judge true]
+  else if orphan_free_gen W g roots true false then [judge false; L [A CLASSTAG; A 101]]
+  else if orphan_free_gen W g roots false true then [judge false; L [A CLASSTAG; A 102]]
+  else if orphan_free_gen W g roots true true then [judge false; L [A CLASSTAG; A 101; A 102]]
   else [judge false].
 
 Definition run_jsr_gen (with_c01_judge : bool) (s : sexp) : sexp :=
